@@ -20,7 +20,7 @@ Definition na_flags (n : na) : N :=
   (if na_router n then 128 else 0) + (if na_solicited n then 64 else 0) + (if na_override n then 32 else 0).
 
 (* what SEND's reference decoder must read back from the frame: Ethernet destination and source,
-   IPv6 source and destination, hop limit 255 towards a link-local destination, type 136 code 0, the
+   IPv6 source and destination, hop limit 255, type 136 code 0, the
    R/S/O flag octet, the target address, exactly one target link-layer address option, valid checksum *)
 Definition on_wire (n : na) (fr : bytes) : bool :=
   R.wf_na (na_eth_src n) (na_eth_dst n) (na_ip_src n) (na_ip_dst n) (na_flags n) (na_target n) (na_tlla n) fr.
@@ -87,7 +87,7 @@ Lemma on_wire_fields n fr : on_wire n fr = true ->
   | Some (R.mkFrame d s et (R.L3Ip6 _ nh hop a b (R.L4Icmp typ code rest))) =>
       d = na_eth_dst n /\ s = na_eth_src n /\ a = na_ip_src n /\ b = na_ip_dst n /\
       typ = 136 /\ nth 0 rest 0 = na_flags n /\ PV.Base.Prelude.sub rest 4 16 = na_target n /\
-      (R.ip6_is_linklocal (na_ip_dst n) = true -> hop = 255)
+      hop = 255
   | _ => False
   end.
 Proof.
@@ -99,7 +99,7 @@ Proof.
   | Hb : (_ =? _) = true |- _ => apply N.eqb_eq in Hb
   end. subst.
   repeat split; auto.
-  intros Hll. match goal with Hh : R.ndp_hop_ok _ _ = true |- _ => unfold R.ndp_hop_ok in Hh; rewrite Hll in Hh; apply N.eqb_eq in Hh; exact Hh end.
+  match goal with Hh : R.nd_hop_ok _ = true |- _ => unfold R.nd_hop_ok in Hh; apply N.eqb_eq in Hh; exact Hh end.
 Qed.
 
 (* C14_confined on the wire: the advertisement a Send step emits (any history), written by SEND's
